@@ -2,14 +2,16 @@
 
 package on disk --Experiment.experimentFromPackage--> live experiment E (writes conf/flowir_instance.yaml, manifest.yaml)
    --history over the real mutators (<=3 operations)-->  E'   (every mutator stores the description again)
-   at every state of the history:
+   at every state of the history (= every prefix of every word over the mutator alphabet):
         R  = Experiment.experimentFromInstance(dir, updateInstanceConfiguration=False)   must equal E'  (and write nothing)
-        R1..R3 = experimentFromInstance(dir, updateInstanceConfiguration=True)  (load + store, 3 cycles): every Ri must
-                 equal E' and every store must leave the stored description unchanged (fixed point)
+        R1..Rn = experimentFromInstance(dir, updateInstanceConfiguration=True)  (load + store; n=3 near the root of the
+                 history tree, n=1 deeper): every Ri must equal E' and every store must leave the stored description
+                 unchanged (fixed point)
         Rn = experimentFromInstance(dir, platform=None)  for instances created for platform P (what etest/ememo do)
         continuation (DoWhile packages): the next iteration instantiated on R must give what it gives on E'
 The oracle (verif.oracles.c07_same) is differential: node set, edges, configurationForNode(raw=False) of every node,
-parsed data references (producer, file, method, resolved targets and paths), environments, loop documents/state.
+parsed data references (producer, file, method, resolved targets and paths), environments, globals / user variables /
+key outputs / status report, loop documents and loop state.  Packages and histories: verif.gen.c07_pkgs.
 """
 import contextlib
 import hashlib
@@ -25,7 +27,7 @@ from verif.oracles import c07_same as O
 PROPERTY = 'C07'
 LEVEL = 'model_checking'
 EXHAUSTIVE = True
-CONTINUATION = True     # also judge sameness operationally (next loop iteration on the re-loaded experiment)
+CONTINUATION = False    # also judge sameness operationally (next loop iteration on the re-loaded experiment)
 CYCLES = 3
 
 # While the setOptionForNode defect is in the tree every state behind a patch operation fails in every kind of reload;
